@@ -270,8 +270,9 @@ func vNewLogFile() (*os.File, string) {
 }
 
 // vBuildLog builds a persistentLog with n entries after a placeholder (base, baseTerm).
+// Symbolically the struct is built directly (B1: file calls are inert); natively the same log is
+// produced through the real API so that it also exists on disk.
 func vBuildLog(name string, n int, base, baseTerm uint64, dataLen int, anyTypes bool) *persistentLog {
-	f, dir := vNewLogFile()
 	entries := make([]*LogEntry, 0, n+1)
 	entries = append(entries, &LogEntry{Index: base, Term: baseTerm})
 	prev := baseTerm
@@ -292,7 +293,34 @@ func vBuildLog(name string, n int, base, baseTerm uint64, dataLen int, anyTypes 
 		}
 		entries = append(entries, e)
 	}
-	return &persistentLog{entries: entries, file: f, logDir: dir}
+	if vSymbolic() {
+		f, dir := vNewLogFile()
+		return &persistentLog{entries: entries, file: f, logDir: dir}
+	}
+	dir, err := os.MkdirTemp(vNativeDir(), "node-")
+	if err != nil {
+		panic(err)
+	}
+	lg, err := NewLog(dir)
+	if err != nil {
+		panic(err)
+	}
+	l := lg.(*persistentLog)
+	if err := l.Open(); err != nil {
+		panic(err)
+	}
+	if err := l.Replay(); err != nil {
+		panic(err)
+	}
+	if base != 0 || baseTerm != 0 {
+		if err := l.DiscardEntries(base, baseTerm); err != nil {
+			panic(err)
+		}
+	}
+	if err := l.AppendEntries(entries[1:]); err != nil {
+		panic(err)
+	}
+	return l
 }
 
 func vBuildNode(spec vNodeSpec) *vNode {
@@ -482,6 +510,7 @@ type vSnapRec struct {
 type vSnapStore struct {
 	recs  []*vSnapRec
 	opens int
+	big   *vBigSnapFile // if set, SnapshotFile hands out this reader (symbolic size) for the newest snapshot
 }
 
 type vSnapFile struct {
@@ -513,6 +542,9 @@ func (s *vSnapStore) SnapshotFile() (SnapshotFile, error) {
 		return nil, nil
 	}
 	s.opens++
+	if s.big != nil {
+		return s.big, nil
+	}
 	return &vSnapFile{store: s, rec: rec}, nil
 }
 
@@ -587,3 +619,44 @@ func (s *vSnapStore) visibleCount() int {
 	}
 	return n
 }
+
+// vBigSnapFile is a read-only snapshot file of symbolic size whose content is irrelevant (zeros).
+// The engine summarises io.Copy from it (methods vRemaining/vSkip); natively it is an ordinary reader.
+type vBigSnapFile struct {
+	meta   SnapshotMetadata
+	size   int64
+	pos    int64
+	closed bool
+}
+
+func (f *vBigSnapFile) vRemaining() int64 { return f.size - f.pos }
+func (f *vBigSnapFile) vSkip(n int64)     { f.pos += n }
+func (f *vBigSnapFile) Read(p []byte) (int, error) {
+	if f.pos >= f.size {
+		return 0, io.EOF
+	}
+	n := int64(len(p))
+	if n > f.size-f.pos {
+		n = f.size - f.pos
+	}
+	for i := int64(0); i < n; i++ {
+		p[i] = 0
+	}
+	f.pos += n
+	return int(n), nil
+}
+func (f *vBigSnapFile) Write(p []byte) (int, error) { return 0, os.ErrClosed }
+func (f *vBigSnapFile) Seek(offset int64, whence int) (int64, error) {
+	switch whence {
+	case io.SeekStart:
+		f.pos = offset
+	case io.SeekCurrent:
+		f.pos += offset
+	case io.SeekEnd:
+		f.pos = f.size + offset
+	}
+	return f.pos, nil
+}
+func (f *vBigSnapFile) Close() error               { f.closed = true; return nil }
+func (f *vBigSnapFile) Discard() error             { return nil }
+func (f *vBigSnapFile) Metadata() SnapshotMetadata { return f.meta }
